@@ -53,4 +53,6 @@ def _linear_alias_rows(g, tier):
     return [c for c in props_alias.gen_C16(g, tier) if c.line.startswith(('al.vec ', 'al.mat ', 'al.vecvec', 'al.matmat', 'al.stokes'))]
 props_lin.SPECS['C13']['extra'] = list(props_lin.SPECS['C13'].get('extra', [])) + [(dict(props_alias.GROUP, replay_prefix='al.'), _linear_alias_rows)]
 props_sim.SPECS['C06']['extra'] = list(props_sim.SPECS['C06'].get('extra', [])) + [(props_sim.GROUP_FAST, props_sim.gen_fast_c06)]
+for _pid, _specs in (('C13', props_lin.SPECS), ('C03', props_alg.SPECS), ('C11', props_est.SPECS)):
+    _specs[_pid]['extra'] = list(_specs[_pid].get('extra', [])) + [(props_lin.GROUP_DBL, props_lin.gen_dbl_inttypes)]
 NOT_CLAIMED = {}
